@@ -496,6 +496,18 @@ def life8(r, facts):
         names = [p.get('name') for p in s['lhs']['p'] if p['k'] == 'field']
         if 'resources' in names or names[-1:] == ['args'] or names[-1:] == ['status']:
             writes.append(loc)
+    # or written through the cell API: `resources.get_mut().write(v)`, `ptr::write(resources.get(), v)`, `mem::replace(&mut x, v)`
+    ebw = ExprBuilder(f, multi='phi')
+    for loc, t in f.calls():
+        last = (t.get('callee') or '').rsplit('::', 1)[-1]
+        if last in ('write', 'replace', 'set') and len(t['args']) == 2 and not f.blocks[loc[0]]['cleanup']:
+            tgt = ebw.operand(t['args'][0])
+            fields = set()
+            for x in subexprs(tgt):
+                if x[0] == 'proj':
+                    fields |= {p_[1:] for p_ in x[2] if p_.startswith('.')}
+            if fields & {'resources', 'args', 'status'}:
+                writes.append(loc)
     r.require(len(writes) >= 3, 'State::reset/writes', 'reset does not write resources, args and status (found %d writes)' % len(writes), f.where())
     for w in writes:
         r.inst('write', f.where(w))
